@@ -29,9 +29,10 @@ func c10Stages(n int) []Stage {
 
 // reference: which stage is active at elapsed e (ns since the first query) and its parameters
 type c10Ref struct {
-	active       bool
-	from, to     int   // targets of the active stage
-	offset, dur  int64 // elapsed within the stage, stage duration
+	active      bool
+	from, to    int   // targets of the active stage
+	offset, dur int64 // elapsed within the stage, stage duration
+	stage       int   // index of the active stage
 }
 
 func c10Reference(st []Stage, e int64) c10Ref {
@@ -41,7 +42,7 @@ func c10Reference(st []Stage, e int64) c10Ref {
 	for i := 0; i < len(st); i++ {
 		d := int64(st[i].Duration)
 		if !r.active && cum <= e && e < cum+d {
-			r = c10Ref{active: true, from: prev, to: st[i].EndTarget, offset: e - cum, dur: d}
+			r = c10Ref{active: true, from: prev, to: st[i].EndTarget, offset: e - cum, dur: d, stage: i}
 		}
 		cum += d
 		prev = st[i].EndTarget
@@ -62,7 +63,7 @@ func c10Interp(r c10Ref) int {
 	return r.from + int(position*float64(r.to-r.from))
 }
 
-// VerifC10_StagedSelection: a calculator over n <= 3 ARBITRARY stages (durations in [0, 2^42) ns incl. zero-length,
+// VerifC10_StagedSelection: a calculator over n <= 3 (thorough: 4) ARBITRARY stages (durations in [0, 2^42) ns incl. zero-length,
 // targets in [0, 2^20), the StartTarget fields filled with garbage), queried at three non-decreasing instants (the
 // first defines the start): every value is the documented interpolation applied to exactly the stage, offset and
 // start/end targets that the reference selects (cum_{i-1} <= e < cum_i, start target = previous end target,
@@ -74,9 +75,11 @@ func c10Interp(r c10Ref) int {
 //verif:timeout 120
 //verif:unroll 12
 func VerifC10_StagedSelection() {
-	maxN := 2
+	// 3 stages also in the quick tier: one query leaving two stages and landing inside a third needs them
+	// (seeded change C10d was missed with 2: skipping both just runs off the end)
+	maxN := 3
 	if zz.Thorough() {
-		maxN = 3
+		maxN = 4
 	}
 	n := zz.Choice("n", maxN) + 1
 	st := c10Stages(n)
@@ -100,6 +103,7 @@ func VerifC10_StagedSelection() {
 	zz.CoverIf("C10.sel.after_end", !r[2].active)
 	zz.CoverIf("C10.sel.zero_length_stage", n >= 2 && st[0].Duration == 0 && r[1].active)
 	zz.CoverIf("C10.sel.skips_a_stage", n >= 2 && r[1].active && r[2].active && r[1].dur != r[2].dur)
+	zz.CoverIf("C10.sel.one_query_leaves_two_stages", n == 3 && r[1].active && r[1].stage == 0 && r[2].active && r[2].stage == 2 && st[0].Duration > 0 && st[1].Duration > 0)
 	for k := 0; k < 3; k++ {
 		if r[k].active {
 			zz.Assert("C10.sel.value_is_interpolation_of_selected_stage", q[k] == c10Interp(r[k]))
